@@ -34,6 +34,10 @@ func zzH_c15_record_wrong_moment() {
 	if pending {
 		c.hand.Write([]byte{typeFinished, 0})
 	}
+	if phase == 1 {
+		// keys are ready (as after the key exchange), so that a ChangeCipherSpec that is let through takes effect
+		c.in.nextCipher = zzKeyRec{}
+	}
 	var err error
 	delivered := 0
 	switch phase {
@@ -70,8 +74,10 @@ func zzH_c15_record_wrong_moment() {
 		}
 	case phase == 1:
 		good := rt == recordTypeChangeCipherSpec && L == 1 && pay[0] == 1 && !pending
-		// (with no pending cipher the switch itself reports an internal error: a ChangeCipherSpec before keys are ready)
-		vAssert("change-cipher-spec-only-well-formed-and-between-messages", err != nil || good)
+		if rt == recordTypeChangeCipherSpec {
+			vAssert("change-cipher-spec-only-well-formed-and-between-messages", (err == nil) == good)
+			vAssert("cipher-switched-iff-accepted", (c.in.nextCipher == nil) == good)
+		}
 		if rt != recordTypeChangeCipherSpec {
 			vAssert("other-record-while-awaiting-change-cipher-spec-is-an-error-unless-handshake", err != nil || rt == recordTypeHandshake)
 		}
